@@ -257,6 +257,39 @@ fn check_regex(rep: &mut Report, w: &W, range: Option<R>, patterns: &[&str], all
             } else {
                 // several expressions: every reported selection must be a true match of its expression inside the range,
                 // results ordered by position, and (without overlap) non-overlapping
+                // what every expression matches on its own (through the regex crate on the plain sub-string)
+                let mut want_all: Vec<(usize, Vec<usize>, Vec<R>)> = vec![];
+                let mut overall: Vec<usize> = vec![]; // where the whole match (context included) begins, per entry of want_all
+                for (xi, re) in exprs.iter().enumerate() {
+                    if re.captures_len() > 1 {
+                        for caps in re.captures_iter(&sub) {
+                            let (mut groups, mut sels) = (vec![], vec![]);
+                            for (i, g) in caps.iter().enumerate().skip(1) { if let Some(g) = g { groups.push(i); sels.push((w.charpos(b, &sub, g.start()), w.charpos(b, &sub, g.end()))); } }
+                            want_all.push((xi, groups, sels));
+                            overall.push(w.charpos(b, &sub, caps.get(0).map(|g| g.start()).unwrap_or(0)));
+                        }
+                    } else {
+                        for m in re.find_iter(&sub) { want_all.push((xi, vec![], vec![(w.charpos(b, &sub, m.start()), w.charpos(b, &sub, m.end()))])); overall.push(w.charpos(b, &sub, m.start())); }
+                    }
+                }
+                let got_all: Vec<(usize, Vec<usize>, Vec<R>)> = ms.iter().map(|m| (m.0, m.1.clone(), m.2.clone())).collect();
+                if ms.len() < 300 {
+                    if allow_overlap {
+                        let (mut a, mut c) = (want_all.clone(), got_all.clone());
+                        a.sort(); c.sort();
+                        if a != c { rep.fail("oracle", &format!("find_text_regex/{}/multi-not-all-matches", cls), ctx.clone(), &format!("{:?}", a), &format!("{:?}", c)); }
+                    } else if let Some(x) = got_all.iter().find(|x| !want_all.contains(x)) {
+                        rep.fail("oracle", &format!("find_text_regex/{}/multi-not-a-match", cls), ctx.clone(), "a match of its expression", &format!("{:?}", x));
+                    }
+                    // "results are returned in the exact order they are found in the text": by where the whole match begins
+                    // (capture groups are what is returned, the rest of the match is context)
+                    let mut used = vec![false; want_all.len()];
+                    // (a match whose optional capture group did not take part returns no selection at all: it has no place in the order of selections)
+                    let keys: Vec<usize> = got_all.iter().filter_map(|x| { let i = (0..want_all.len()).find(|i| !used[*i] && want_all[*i] == *x)?; used[i] = true; if x.2.is_empty() { None } else { Some(overall[i]) } }).collect();
+                    if keys.windows(2).any(|k| k[0] > k[1]) {
+                        rep.fail("oracle", &format!("find_text_regex/{}/multi-order", cls), ctx.clone(), "results in order of position", &format!("{:?}", got_all));
+                    }
+                }
                 let mut last = 0usize;
                 for m in ms {
                     let re = &exprs[m.0];
@@ -430,7 +463,7 @@ pub fn run(opts: &Opts) -> Report {
     let needles = ["a", "b", " ", "\u{e9}", "\u{1F600}", "ab", "a ", "aa", "\u{130}", "A"];
     let delims = [" ", "a", "\u{e9}", "ab", "  ", "\u{1F600}"];
     let trimsets: [&[char]; 4] = [&[' '], &['a', ' '], &['\u{e9}', '\u{1F600}'], &['a', 'A', 'b', '\u{e9}', '\u{130}', ' ', '\u{1F600}']];
-    let regexes = ["[a-z]+", "a(b)?", "(a)(b)", "\\s+", "\u{e9}|\u{1F600}", "(?i)a+", "(\\w)\\s(\\w)", "b*"];
+    let regexes = ["[a-z]+", "a(b)?", "(a)(b)", "\\s+", "\u{e9}|\u{1F600}", "(?i)a+", "(\\w)\\s(\\w)", "b*", "(\\w+) (\\w+)", "\\w (\\w)", "a b", "\\w \\w"];
     for (ti, text) in texts.iter().enumerate() {
         let n = text.chars().count();
         // known selections for segmentation
